@@ -133,7 +133,7 @@ def run_case(case, ka, T=1.0):
                 return []
             F = frame(framing, count, req, at=at)
             return [(D0, ('data', F[:p])), (d2, ('data', F[p:]))]
-        res, sent, reads, unh = execute(framing, count, plan, ka)
+        res, sent, reads, unh = execute(framing, count, plan, ka, T=T)
         F = frame(framing, count, sent[0][2], at=at)
         if not (res[0] == 'ok' and res[1] == F and len(sent) == 1):
             vio.append(('reassembled-exactly', f'{res[0]} tx={len(sent)}'))
@@ -325,8 +325,14 @@ def job(j):
         if i % nparts != part:
             continue
         v, o = run_case(case, ka)
-        if framing == 'tcp' and case[0] == 'neg' and case[4] in ('full-frame',) and False:
-            pass
+        if case[0] == 'pos' and len(case) == 5 and case[2] in (2, 61) and case[3] % 3 == 0:
+            # the same split with other configured timeouts (the delays are fractions of the timeout)
+            for T_ in (3.0, 0.5, 7):
+                v2, o2 = run_case(case, ka, T=T_)
+                n += 1
+                for clause, cause in v2:
+                    key = f'{clause}/{framing}/ka={int(ka)}/pos:{case[4]}/timeout={T_}'
+                    vio.setdefault(key, []).append((clause, case + (('T', T_),), cause))
         n += 1
         oc[(case[0],) + o] = oc.get((case[0],) + o, 0) + 1
         states.add(h((framing, ka, case[0], case[2], case[3], o)))
@@ -341,11 +347,15 @@ def job(j):
     out = []
     for key, lst in vio.items():
         clause, case, cause = lst[0]
-        v2, _ = run_case(case, ka)
+        Tq = 1.0
+        if case and isinstance(case[-1], tuple) and case[-1][0] == 'T':
+            Tq = case[-1][1]
+            case = case[:-1]
+        v2, _ = run_case(case, ka, T=Tq)
         if not any(c == clause for c, _ in v2):
             key = key + '/order-dependent'
             cause = f'{cause}; ' + 'failed during exploration but not on a fresh replay: the outcome depends on earlier executions in the same process (state outside the objects under test leaks between executions)'
-        out.append(dict(key=key, clause=clause, n=len(lst), replay=dict(case=list(case), ka=ka),
+        out.append(dict(key=key, clause=clause, n=len(lst), replay=dict(case=list(case), ka=ka, T=Tq),
                         detail=dict(cause=cause, count=case[2], split=case[3])))
     return n, oc, out, states, sample
 
@@ -405,5 +415,5 @@ def replay(r):
         out['violations'] = [v for v in out['violations'] if v[0].startswith('answered-at-once:frag')]
         return out
     case = [bytes.fromhex(c['hex']) if isinstance(c, dict) and 'hex' in c else c for c in r['case']]
-    v, o = run_case(tuple(case), r['ka'])
+    v, o = run_case(tuple(case), r['ka'], T=r.get('T', 1.0))
     return dict(case=[c.hex() if isinstance(c, bytes) else c for c in case], outcome=o, violations=v)
